@@ -1,9 +1,10 @@
 #!/bin/bash
 # re-runs every kept seeded change against the checks recorded as catching it (quick tier); prints one line per (seed, check)
+ROOT=$(cd "$(dirname "$0")/.." && pwd)
 export MUTWT=${MUTWT:-/tmp/seedwt}
-for d in /verif/seeded/*/; do
+for d in $ROOT/seeded/*/; do
   n=$(basename $d)
   checks=$(python3 -c "import json,sys;print(' '.join(json.load(open('$d/meta.json'))['caught_by']))")
-  /verif/tools/seedrun.sh $n $checks
+  $ROOT/tools/seedrun.sh $n $checks
 done
 git -C /repo worktree remove --force $MUTWT 2>/dev/null
